@@ -68,6 +68,17 @@ def wire_case(args):
         p2 = p1 + d * length
         r = length / n / rnd.choice([20, 100, 1000])
         seg = kind.split('#')[0].split('/')
+        if 'nearzero' in seg:
+            # free space: the plane z = 0 means nothing, an end point a hair away from it stays where it is
+            # (the ground-detection tolerance is a thousandth of the shortest segment >= 2.5e-3 radii)
+            z = r * 2e-3 * rnd.uniform(0.5, 1) * rnd.choice([-1, 1])
+            if rnd.random() < 0.5:
+                p2 = p2 - np.array([0, 0, p1[2] - z])
+                p1 = np.array([p1[0], p1[1], z])
+            else:
+                p1 = p1 - np.array([0, 0, p2[2] - z])
+                p2 = np.array([p2[0], p2[1], z])
+            seg.remove('nearzero')
         w = Wire(n, *p1, *p2, r)
         if seg[0] == 'plain':
             # optionally rotated / translated before segmentation (the last transformation may be a rotation)
@@ -222,7 +233,8 @@ def run(tier):
         'parameter sets rejected by the program are not counted (their rejection is the matter of C20); bounds carry a relative slack of 1e-6']
     nrep = 60 if tier == 'quick' else 600
     wkinds = ['plain', 'plain/rot', 'plain/rot+tra'] + ['taper/%d%s%s' % (st, a, b) for st in (1, 2, 3)
-                                                        for a in ('', '/min') for b in ('', '/max')]
+                                                        for a in ('', '/min') for b in ('', '/max')] \
+        + ['plain/nearzero', 'taper/1/nearzero', 'taper/2/nearzero', 'taper/3/nearzero']
     jobs = [('%s#%d' % (k, i), C.seed()) for k in wkinds for i in range(nrep)]
     acc = 0
     for (k, _), o in zip(jobs, C.parallel_map(wire_case, jobs, chunksize=8)):
